@@ -475,49 +475,77 @@ func (c *Ctx) insertIdenticalForms() {
 	name := "tree.Tree.InsertIdenticalTip"
 	env := c.newLFEnv(info, fi.Decl.Body)
 	clause := "identical tips sitting at distance zero from their model"
-	// new branches: locals assigned from NewEdge()/ConnectNodes()
-	newEdges := map[types.Object]token.Pos{}
-	ast.Inspect(fi.Decl.Body, func(n ast.Node) bool {
-		if as, ok := n.(*ast.AssignStmt); ok && len(as.Lhs) == 1 && len(as.Rhs) == 1 {
-			if call, ok := unparen(as.Rhs[0]).(*ast.CallExpr); ok {
-				fn := calleeOf(info, call)
-				if isRepoFunc(fn, "tree", "Tree", "NewEdge") || isRepoFunc(fn, "tree", "Tree", "ConnectNodes") {
-					if o := identObj(info, as.Lhs[0]); o != nil {
-						newEdges[o] = as.Pos()
+	// new branches: locals assigned from NewEdge()/ConnectNodes(), in InsertIdenticalTip and in the
+	// unexported helpers of the package it calls (each branch of the function may be a helper)
+	units := []*FuncInfo{fi}
+	seenU := map[*types.Func]bool{fi.Obj: true}
+	for i := 0; i < len(units) && len(units) < 10; i++ {
+		for _, call := range callsIn(units[i].Decl.Body, true) {
+			g := calleeOf(units[i].Pkg.TypesInfo, call)
+			if g == nil || seenU[g] || g.Exported() || g.Pkg() != fi.Obj.Pkg() {
+				continue
+			}
+			c.indexAccessors()
+			if _, isSetter := c.setters[g]; isSetter {
+				continue
+			}
+			if _, isGetter := c.getters[g]; isGetter {
+				continue
+			}
+			if gi := c.FuncOfObj(g); gi != nil && gi.Decl.Body != nil && !c.isAdjPrimitive(g) {
+				seenU[g] = true
+				units = append(units, gi)
+			}
+		}
+	}
+	total := 0
+	for _, u := range units {
+		info := u.Pkg.TypesInfo
+		env := c.newLFEnv(info, u.Decl.Body)
+		newEdges := map[types.Object]token.Pos{}
+		ast.Inspect(u.Decl.Body, func(n ast.Node) bool {
+			if as, ok := n.(*ast.AssignStmt); ok && len(as.Lhs) == 1 && len(as.Rhs) == 1 {
+				if call, ok := unparen(as.Rhs[0]).(*ast.CallExpr); ok {
+					fn := calleeOf(info, call)
+					if isRepoFunc(fn, "tree", "Tree", "NewEdge") || isRepoFunc(fn, "tree", "Tree", "ConnectNodes") {
+						if o := identObj(info, as.Lhs[0]); o != nil {
+							newEdges[o] = as.Pos()
+						}
 					}
 				}
 			}
+			return true
+		})
+		total += len(newEdges)
+		zeroed := map[types.Object]bool{}
+		for _, st := range c.fieldStores(info, u.Decl.Body, nil) {
+			if st.field.Name() != "length" {
+				continue
+			}
+			ro := identObj(info, st.recvE)
+			if _, isNew := newEdges[ro]; !isNew {
+				c.Violation("LF", name+"/"+st.recv+".length", st.pos, "InsertIdenticalTip writes the length of a pre-existing branch ("+st.recv+"): path lengths between existing tips change").Clause = "leave every path length between pre-existing tips unchanged"
+				continue
+			}
+			p, err := env.fold(st.rhs)
+			if err != nil {
+				c.Undecided("LF", name+"/"+st.recv+".length", st.pos, err.Error())
+				continue
+			}
+			v, isC := p.isConst()
+			if isC && v.Sign() == 0 && st.op == token.ASSIGN {
+				zeroed[ro] = true
+			} else {
+				c.Violation("LF", name+"/"+st.recv+".length", st.pos, "new branch "+st.recv+" gets length "+p.String()+", must be the constant 0").Clause = clause
+			}
 		}
-		return true
-	})
-	if len(newEdges) < 2 {
+		for o, p := range newEdges {
+			// the creation must be followed (post-dominated inside its block) by the zero store: accept same block
+			c.Check(zeroed[o], "LF", name+"/"+o.Name()+"=0", p, "created branch gets length 0", "created branch "+o.Name()+" never gets length 0 (it keeps the 'absent' sentinel or another value): the new tip is not at distance zero").Clause = clause
+		}
+	}
+	if total < 2 {
 		c.Undecided("LF", name+"/new-branches", fi.Decl.Pos(), "fewer than two created branches found")
-	}
-	zeroed := map[types.Object]bool{}
-	for _, st := range c.fieldStores(info, fi.Decl.Body, nil) {
-		if st.field.Name() != "length" {
-			continue
-		}
-		ro := identObj(info, st.recvE)
-		if _, isNew := newEdges[ro]; !isNew {
-			c.Violation("LF", name+"/"+st.recv+".length", st.pos, "InsertIdenticalTip writes the length of a pre-existing branch ("+st.recv+"): path lengths between existing tips change").Clause = "leave every path length between pre-existing tips unchanged"
-			continue
-		}
-		p, err := env.fold(st.rhs)
-		if err != nil {
-			c.Undecided("LF", name+"/"+st.recv+".length", st.pos, err.Error())
-			continue
-		}
-		v, isC := p.isConst()
-		if isC && v.Sign() == 0 && st.op == token.ASSIGN {
-			zeroed[ro] = true
-		} else {
-			c.Violation("LF", name+"/"+st.recv+".length", st.pos, "new branch "+st.recv+" gets length "+p.String()+", must be the constant 0").Clause = clause
-		}
-	}
-	for o, p := range newEdges {
-		// the creation must be followed (post-dominated inside its block) by the zero store: accept same block
-		c.Check(zeroed[o], "LF", name+"/"+o.Name()+"=0", p, "created branch gets length 0", "created branch "+o.Name()+" never gets length 0 (it keeps the 'absent' sentinel or another value): the new tip is not at distance zero").Clause = clause
 	}
 	// the polytomy shortcut is taken only for a zero-length parent branch
 	for _, n := range []struct{ recv, fn string }{{"Tree", "GraftTreeOnTip"}, {"Tree", "Merge"}} {
